@@ -4022,6 +4022,13 @@ class GraphTraversalReachability:
         commits, _bases = _collect_ancestors(
             self.store, heads, exclude_set, shallow_set
         )
+        if exclude_set and commits:
+            # Stopping at the excluded commits is not enough: one of their
+            # ancestors may also be reachable from heads along another path.
+            excluded, _bases = _collect_ancestors(
+                self.store, exclude_set, frozenset(), shallow_set
+            )
+            commits -= excluded
         return commits
 
     def get_tree_objects(
@@ -4057,22 +4064,17 @@ class GraphTraversalReachability:
         Returns:
           Set of all object SHAs (commits, trees, blobs)
         """
-        commits_set = set(commits)
-        result = set(commits_set)
-
-        # Get trees for all commits
-        tree_shas = []
-        for commit_sha in commits_set:
-            try:
-                commit = self.store[commit_sha]
-                if isinstance(commit, Commit):
-                    tree_shas.append(commit.tree)
-            except KeyError:
-                # Commit not in store, skip
-                continue
-
-        # Collect all tree/blob objects
-        result.update(self.get_tree_objects(tree_shas))
+        # Everything reachable: the commits given and their ancestors, the
+        # root tree of each of them and all that those trees contain.
+        result: set[ObjectID] = set()
+        for commit_sha in self.get_reachable_commits(
+            [c for c in commits if c in self.store]
+        ):
+            result.add(commit_sha)
+            commit = self.store[commit_sha]
+            if isinstance(commit, Commit) and commit.tree not in result:
+                result.add(commit.tree)
+                _collect_filetree_revs(self.store, commit.tree, result)
 
         # Exclude objects from exclude_commits if needed
         if exclude_commits:
@@ -4148,8 +4150,11 @@ class BitmapReachability:
         if exclude_shas and result_pack and combined_bitmap:
             exclude_bitmaps = find_commit_bitmaps(exclude_shas, [result_pack])
 
-            if len(exclude_bitmaps) == len(exclude_shas):
-                # All excludes have bitmaps, compute exclusion
+            if len(exclude_bitmaps) != len(exclude_shas):
+                # Without a bitmap for every excluded commit the exclusion
+                # cannot be computed here; let the caller fall back.
+                return None
+            else:
                 exclude_combined = None
 
                 for commit_sha in exclude_shas:
@@ -4157,7 +4162,7 @@ class BitmapReachability:
                     exclude_bitmap = pack_bitmap.get_bitmap(commit_sha)
 
                     if exclude_bitmap is None:
-                        break
+                        return None
 
                     if exclude_combined is None:
                         exclude_combined = exclude_bitmap
